@@ -231,8 +231,15 @@ SIZE_KINDS = ['volume-space-size', 'volume-space-size', 'volume-space-size', 'pa
               'lvid-size-table', 'last_usable', 'first_usable', 'block_count', 'fe-info-length', 'ad-length', 'ce-length', 'logical-block-size', 'pt-l-location', 'anchor-main-location']
 SMALLER = st.builds(lambda k, i, r, rnd, seal: [('nfield', k, i, r, rnd)] + ([('reseal',)] if seal else []), st.sampled_from(SIZE_KINDS), st.integers(0, 99999),
                     st.sampled_from(['small', 'small', 'nearv']), st.integers(0, 0xffffffff), st.booleans())
+# ... and lengths that are far *larger* than the image, with the descriptor resealed so that the parser believes it: every
+# length that open() passes to read() (a file object of the operating system allocates before it reads)
+LENGTH_KINDS = ['anchor-main-length', 'anchor-reserve-length', 'lvd-integrity-length', 'ad-length', 'fid-icb-length', 'fsd-root-length', 'lvd-fsd-length', 'ce-length', 'data-length',
+                'path-table-size', 'num_entries', 'pd-length', 'fe-info-length', 'fe-ad-length', 'fe-ea-length', 'lvd-map-table-length', 'lvid-impl-use-length', 'entry_size', 'tag-crc-length']
+LARGER = st.builds(lambda k, i, rnd, seal: [('nfield', k, i, 'large', rnd)] + ([('reseal',)] if seal else []), st.sampled_from(LENGTH_KINDS), st.integers(0, 99999),
+                   st.integers(0, 0xffffffff), st.sampled_from([True, True, False]))
 CASE = st.one_of(
     st.tuples(st.integers(0, 9999), SMALLER),
+    st.tuples(st.integers(0, 9999), LARGER),
     st.tuples(st.integers(0, NBASES + NEXTRA - 1), st.lists(PATCH, min_size=1, max_size=3)),
     st.tuples(st.integers(0, NBASES + NEXTRA - 1), st.lists(PATCH, min_size=1, max_size=3)),
     st.tuples(st.integers(0, NBASES + NEXTRA - 1), RESEALED),
@@ -423,6 +430,8 @@ def newval(v, rk, rnd, n, fields, fk, img, width):
         return v * 2
     if rk == 'beyond':
         return n // 2048 + 1 + rnd % 1000
+    if rk == 'large':
+        return [0x3ffff800, 0x3fffffff, 0x7fffffff, 0xfffff800, 0xffffffff, 0x40000000, n * 3][rnd % 7]      # far larger than the image (with and without the bits ECMA-167 masks off)
     if rk == 'small':
         return rnd % 300          # a size / count / location that is too small rather than too large (anything derived as "value - constant" goes negative)
     if rk == 'nearv':
